@@ -187,7 +187,12 @@ Obs == [ tip   |-> tip,
                                     ELSE [trunk |-> FALSE, blk |-> 0]],
          tips  |-> SetToSortSeq(tips, <),
          paths |-> [a \in 1..n |-> [b \in 1..n |->
-                        IF a \in alive /\ b \in alive THEN FindUndoTodo(a, b) ELSE [u |-> <<>>, t |-> <<>>]]] ]
+                        IF a \in alive /\ b \in alive THEN FindUndoTodo(a, b) ELSE [u |-> <<>>, t |-> <<>>]]],
+         \* GetCommonParentBlockid; Dump(): per height 0..trunk height the stored blocks with their in-trunk flag
+         lca   |-> [a \in 1..n |-> [b \in 1..n |-> IF a \in alive /\ b \in alive THEN LCA(a, b) ELSE 0]],
+         dump  |-> [i \in 1..(theight + 1) |->
+                        LET ids == SetToSortSeq({b \in alive : Height(b) = i - 1}, <) IN
+                        [j \in 1..Len(ids) |-> <<ids[j], flag[ids[j]]>>]] ]
 
 -----------------------------------------------------------------------------
 (* Property C04 as invariants over the persisted flags and indices *)
